@@ -1,6 +1,7 @@
 import Rare.Proofs.C18Cal
 import Rare.Proofs.C18Layout
 import Rare.Proofs.C18Dur
+import Rare.Proofs.C18DurFrac
 import Rare.Proofs.C18RT
 import Rare.Proofs.C18Abbr
 import Rare.Proofs.C18Zone
@@ -568,7 +569,7 @@ theorem duration_roundtrip (n : Int) (h1 : -9223372036 ≤ n) (h2 : n ≤ 922337
   · simp only [durationFormat, atoi_itoa n hin, hw, hb]
   · have hd : Int.tdiv (n * 1000000000) 1000000000 = n := Int.mul_tdiv_cancel _ (by decide)
     have hm : Int.tmod (n * 1000000000) 1000000000 = 0 := Int.mul_tmod_left _ _
-    simp only [duration, hp, hd, hm, ne_eq, not_true_eq_false, false_and, if_false]
+    simp only [duration, hp, hd]
 
 /-- What `durationformat` prints for a whole number of seconds in that range: an optional `-`, then
 hours (if any), minutes (if any hours or minutes) and seconds of the magnitude, which recompose to it. -/
@@ -584,6 +585,124 @@ theorem durationformat_spec (n : Int) (h0 : n ≠ 0) (h1 : -9223372036 ≤ n) (h
   · simp only [durationFormat, atoi_itoa n hin, hw, durationString_seconds n h0]
   · simp only [secondsOfHms, hmsOf]; omega
   · simp only [hmsOf]; omega
+
+/-! ## Durations with a fraction (`1.5h`, `0.25s`) -/
+
+/-- `{duration}` is total and is the truncation toward zero of the parsed duration to whole seconds,
+in integer arithmetic, for EVERY text: either `ParseDuration` refuses it (error marker) or the answer
+is `d / 10^9` of the nanosecond count `d` – no float is involved any more (7d50a89 in /repo; the
+model has no declined case left: fractions are computed with the bit-exact binary64 model). -/
+theorem duration_total (arg : Bytes) :
+    (parseDuration arg = .err ∧ duration arg = .val errorParsing)
+    ∨ ∃ d, parseDuration arg = .ok d ∧ duration arg = .val (itoa (Int.tdiv d 1000000000)) := by
+  unfold duration
+  cases h : parseDuration arg with
+  | err => exact Or.inl ⟨rfl, rfl⟩
+  | ok d => exact Or.inr ⟨d, rfl, rfl⟩
+
+/-- A decimal number of hours, minutes or seconds whose fraction is not finer than the unit's decimal
+places (`10^k ∣ unit`: up to 9 digits for `s`, 10 for `m`, 11 for `h`) is read EXACTLY – the two
+binary64 roundings inside `ParseDuration` are exact there – and `{duration}` answers the whole seconds
+of that exact value (truncated): `{duration 1.5h}` = 5400, `{duration 16777216.999999999s}` = 16777216. -/
+theorem duration_decimal_exact (v : Nat) (ds : Bytes) (u : UInt8) (unit : Nat)
+    (hu : (u = 104 ∧ unit = 3600000000000) ∨ (u = 109 ∧ unit = 60000000000) ∨ (u = 115 ∧ unit = 1000000000))
+    (hds : ds.all isDigitB = true) (hk : 10 ^ ds.length ∣ unit)
+    (hv : (v + 1) * unit ≤ 9223372036854775807) :
+    parseDuration (natDigits v ++ 46 :: (ds ++ [u]))
+        = .ok ((v * unit + digitsVal ds 0 * (unit / 10 ^ ds.length) : Nat) : Int)
+    ∧ duration (natDigits v ++ 46 :: (ds ++ [u]))
+        = .val (itoa (((v * unit + digitsVal ds 0 * (unit / 10 ^ ds.length)) / 1000000000 : Nat) : Int))
+    ∧ parseDuration (45 :: (natDigits v ++ 46 :: (ds ++ [u])))
+        = .ok (-((v * unit + digitsVal ds 0 * (unit / 10 ^ ds.length) : Nat) : Int)) := by
+  obtain ⟨c, r, hcr, hc⟩ := natDigits_head v
+  have hs := isDigitB_ne_sign hc
+  have hfin : ∀ f d, parseDurLoop (f + 1) [] d = some d := fun f d => by unfold parseDurLoop; rfl
+  have hu0 : 0 < unit := by rcases hu with ⟨_, h⟩ | ⟨_, h⟩ | ⟨_, h⟩ <;> subst h <;> decide
+  have hflt : digitsVal ds 0 < 10 ^ ds.length := by
+    have := digitsVal_lt_pow ds hds 0; simpa using this
+  have hterm : digitsVal ds 0 * (unit / 10 ^ ds.length) < unit := by
+    obtain ⟨q, hq⟩ := hk
+    have hp : 0 < 10 ^ ds.length := Nat.pow_pos (by decide)
+    have : unit / 10 ^ ds.length = q := by rw [hq]; exact Nat.mul_div_cancel_left q hp
+    rw [this]
+    have hq0 : 0 < q := by
+      rcases Nat.eq_zero_or_pos q with h | h
+      · subst h; simp at hq; omega
+      · exact h
+    calc digitsVal ds 0 * q < 10 ^ ds.length * q := Nat.mul_lt_mul_of_pos_right hflt hq0
+      _ = unit := hq.symm
+  have hexp : (v + 1) * unit = v * unit + unit := by rw [Nat.add_mul, Nat.one_mul]
+  have hloop : ∀ fuel, parseDurLoop (fuel + 2) (natDigits v ++ 46 :: (ds ++ [u])) 0
+      = some (v * unit + digitsVal ds 0 * (unit / 10 ^ ds.length)) := by
+    intro fuel
+    rw [parseDurLoop_fracGroup (fuel + 1) v 0 ds u unit [] hu hds hk (by omega) (Or.inl rfl), hfin, Nat.zero_add]
+  have hlen : (natDigits v ++ 46 :: (ds ++ [u])).length + 1 = ((natDigits v).length + ds.length) + 1 + 2 := by
+    simp only [List.length_append, List.length_cons, List.length_nil]; omega
+  have hne0 : natDigits v ++ 46 :: (ds ++ [u]) ≠ [48] := by
+    intro h; have := congrArg List.length h
+    simp only [List.length_append, List.length_cons, List.length_nil] at this; omega
+  have hnil : natDigits v ++ 46 :: (ds ++ [u]) ≠ [] := by
+    intro h; have := congrArg List.length h
+    simp only [List.length_append, List.length_cons, List.length_nil] at this; omega
+  have hbig : ¬ (v * unit + digitsVal ds 0 * (unit / 10 ^ ds.length) > 9223372036854775807) := by omega
+  have hpos : parseDuration (natDigits v ++ 46 :: (ds ++ [u]))
+      = .ok ((v * unit + digitsVal ds 0 * (unit / 10 ^ ds.length) : Nat) : Int) := by
+    have hl := hloop ((natDigits v).length + ds.length + 1)
+    unfold parseDuration
+    rw [hcr] at hne0 hnil hl hlen ⊢
+    split
+    next neg s1 heq =>
+      split at heq
+      · next r' h' => exact absurd (List.cons.inj h').1 hs.2
+      · next r' h' => exact absurd (List.cons.inj h').1 hs.1
+      · cases heq
+        simp only [hne0, hnil, if_false, hlen, hl, hbig, Bool.false_eq_true]
+  refine ⟨hpos, ?_, ?_⟩
+  · simp only [duration, hpos]
+    congr 2
+  · have hl := hloop ((natDigits v).length + ds.length + 1)
+    unfold parseDuration
+    simp only [hne0, hnil, if_false, hlen, hl, if_true]
+
+/-- The boundary of that class is real, and it is Go's (`time.ParseDuration` multiplies in binary64):
+with more digits than the unit has decimal places the SAME decimal value is read one nanosecond short,
+so trailing zeros change the whole seconds: `0.25h` is 900 s but `0.25000000000000h` is 899 s,
+`0.05m` is 3 s but `0.05000000000000m` 2 s; `0.00000000005m` is 3 ns but `0.00000000005000m` 2 ns
+(same in the real code: ops `dur`, `frac`). -/
+theorem duration_fraction_counterexample :
+    duration (asc "0.25h") = .val (asc "900") ∧ duration (asc "0.25000000000000h") = .val (asc "899")
+    ∧ duration (asc "0.05m") = .val (asc "3") ∧ duration (asc "0.05000000000000m") = .val (asc "2")
+    ∧ parseDuration (asc "0.00000000005m") = .ok 3 ∧ parseDuration (asc "0.00000000005000m") = .ok 2
+    ∧ fracTerm 5000 60000000000 14 = 2 ∧ 5000 * 60000000000 / 10 ^ 14 = 3 := by
+  decide +kernel
+
+/-- Why the whole seconds are now taken in integer arithmetic: at 2^24 s (194 days) the float64 sum
+of `Duration.Seconds()` no longer resolves 1 ns below the next second and rounds UP, one second more
+than the duration holds (the defect repaired by 7d50a89; witness in corpus/C18/r4b.case), while one
+second earlier it still truncated.  The current stage answers 16777216 (`duration_decimal_exact`). -/
+theorem duration_float_seconds_counterexample :
+    secondsViaFloat 16777216999999999 = 16777217
+    ∧ secondsViaFloat 16777215999999999 = 16777215
+    ∧ secondsViaFloat (-16777216999999999) = -16777217
+    ∧ duration (asc "16777216.999999999s") = .val (asc "16777216")
+    ∧ duration (asc "-16777216.999999999s") = .val (asc "-16777216")
+    ∧ duration (asc "4660h20m16.999999999s") = .val (asc "16777216") := by
+  decide +kernel
+
+/-- Limits of `ParseDuration`, exactly as in Go: the largest duration is 2^63−1 ns, −2^63 ns parses
+(only with a sign), digits of a fraction beyond what fits 2^63 are ignored (not an error), a fraction
+needs a digit on one side of the point, exponents are not numbers. -/
+theorem duration_limits :
+    duration (asc "9223372036.854775807s") = .val (asc "9223372036")
+    ∧ duration (asc "9223372036.854775808s") = .val errorParsing
+    ∧ duration (asc "-9223372036.854775808s") = .val (asc "-9223372036")
+    ∧ duration (asc "-9223372036.854775809s") = .val errorParsing
+    ∧ duration (asc "1.0000000000000000000000000001s") = .val (asc "1")
+    ∧ duration (asc "0.9223372036854775809s") = .val (asc "0")
+    ∧ duration (asc ".5h") = .val (asc "1800") ∧ duration (asc "1.s") = .val (asc "1")
+    ∧ duration (asc ".s") = .val errorParsing ∧ duration (asc "1e3s") = .val errorParsing
+    ∧ duration (asc "1.5") = .val errorParsing ∧ duration (asc "0.5h0.5m0.5s") = .val (asc "1830") := by
+  decide +kernel
 
 /-! ## Markers -/
 
@@ -860,6 +979,13 @@ example : quarter 3 = 1 ∧ quarter 12 = 4 ∧ Gen.C18.quarter 3 = 1 ∧ Gen.C18
 /-- 1 Jan 2021 is a Friday of ISO week 2020-53; 4 Jan 2021 starts 2021-1. -/
 example : weekday 18628 = 5 ∧ isoYearWeek 18628 = (2020, 53) ∧ isoYearWeek 18631 = (2021, 1)
     ∧ civilFromDays 18628 = ⟨2021, 1, 1⟩ := by decide +kernel
+
+/-- `1.5h` and `16777216.999999999s` satisfy the hypotheses of `duration_decimal_exact`. -/
+example : natDigits 1 ++ 46 :: (asc "5" ++ [104]) = asc "1.5h" ∧ (asc "5").all isDigitB = true ∧ 10 ^ (asc "5").length ∣ 3600000000000
+    ∧ (1 + 1) * 3600000000000 ≤ 9223372036854775807
+    ∧ natDigits 16777216 ++ 46 :: (asc "999999999" ++ [115]) = asc "16777216.999999999s"
+    ∧ 10 ^ (asc "999999999").length ∣ 1000000000 ∧ duration (asc "1.5h") = .val (asc "5400") := by
+  refine ⟨by decide +kernel, by decide, by decide, by decide, by decide +kernel, by decide, by decide +kernel⟩
 
 example : durationFormat (asc "14400") = .val (asc "4h0m0s") ∧ duration (asc "4h0m0s") = .val (asc "14400") := by
   decide +kernel
